@@ -5,7 +5,7 @@ import typing
 import binascii
 from typing import Optional
 from lbry.error import InvalidBlobHashError, InvalidDataError
-from lbry.blob_exchange.serialization import BlobResponse, BlobRequest
+from lbry.blob_exchange.serialization import BlobResponse, BlobRequest, MAX_RESPONSE_SIZE
 from lbry.utils import cache_concurrent
 if typing.TYPE_CHECKING:
     from lbry.blob.blob_file import AbstractBlob
@@ -56,6 +56,10 @@ class BlobExchangeClientProtocol(asyncio.Protocol):
         response = BlobResponse.deserialize(self.buf + data)
         if not response.responses and not self._response_fut.done():
             self.buf += data
+            if len(self.buf) > MAX_RESPONSE_SIZE:
+                log.warning("%s:%i sent %i bytes without a valid response, closing", self.peer_address,
+                            self.peer_port, len(self.buf))
+                return self.close()
             return
         else:
             self.buf = b''
